@@ -63,13 +63,19 @@ def render(body, lexer, ascent, recovery, generic):
     L = ["use crate::support::*;"]
     if ascent:
         L.append("#[recursive_ascent]")
-    if generic:
+    if generic == 2:
+        # two type parameters related by one where-clause, only one of them occurs in a symbol type
+        L.append("grammar<T, F>(make: &F) where F: Fn(usize) -> T, T: Clone + std::fmt::Debug;")
+    elif generic:
         L.append("grammar<'s, T>(name: &'s str, seed: &T) where T: Clone + std::fmt::Debug;")
     else:
         L.append("grammar;")
     if lexer == "extern":
         L.append('extern {\n    type Location = Loc;\n    type Error = String;\n    enum Tok { "a" => Tok::A, "b" => Tok::B, "c" => Tok::C, "d" => Tok::D, "," => Tok::Comma }\n}')
-    if generic:
+    if generic == 2:
+        L.append("pub S: Vec<T> = <l:@L> <xs:Item*> <r:@R> => { let _ = (&l, &r); xs.into_iter().map(|x| make(x)).collect() };")
+        L.append("pub One: Option<T> = <x:Item?> => x.map(|v| make(v));")
+    elif generic:
         L.append("pub S: Ast<'s, (usize, T)> = <l:@L> <xs:Item*> <r:@R> => { let _ = (&l, &r); Ast { name, items: xs.into_iter().map(|x| (x, seed.clone())).collect() } };")
     else:
         L.append("pub S: Vec<usize> = <l:@L> <xs:Item*> <r:@R> => { let _ = (&l, &r); xs };")
@@ -92,7 +98,7 @@ def run(tier):
     ncase = nbad = 0
     for i in range(n):
         body = gen_body(r, r.randint(2, 6))
-        recovery, generic = (i % 3 == 1), (i % 4 == 2)
+        recovery, generic = (i % 3 == 1), (1 if i % 4 == 2 else 2 if i % 4 == 3 else 0)
         for lexer in ("intern", "extern"):
             for ascent in (False, True):
                 if ascent and recovery:
@@ -110,7 +116,7 @@ def run(tier):
                     continue
                 dist["accepted"] += 1
                 u = {"name": name, "rs": rs, "parsers": ["S"] if (lexer == "intern") else [],
-                     "args": '"n", &7u8, ' if generic else ""}
+                     "args": '"n", &7u8, ' if generic == 1 else "&|n: usize| n as u64, " if generic == 2 else ""}
                 units.append(u); meta[name] = text
     dist["modules"] = len(units)
     # compile in batches; on failure bisect to the offending module(s)
